@@ -177,15 +177,33 @@ def parseI64 (s : Bytes) : Option Int :=
     `large-dates` feature of `time` is off) -/
 def maxUnixTs : Int := 253402300799
 
-/-- `parse_unix_timestamp`: `i64`, `>= 0`, inside the range of `OffsetDateTime` -/
+/-- `PrimitiveDateTime::MAX.assume_utc()` in nanoseconds since the epoch
+    (9999-12-31T23:59:59.999999999Z): the latest instant an `OffsetDateTime` — hence the clock — can show -/
+def maxDateTimeNs : Int := 253402300799999999999
+
+/-- `is_decimal`: `"+"? DIGIT+` -/
+def isDecimal (s : Bytes) : Bool :=
+  let digits := (stripPrefix [43] s).getD s
+  !digits.isEmpty && digits.all isDigit
+
+/-- `OffsetDateTime::from_unix_timestamp(ts).unwrap_or(PrimitiveDateTime::MAX.assume_utc())` for `ts ≥ 0`,
+    as nanoseconds since the epoch -/
+def instantOfUnixTs (ts : Int) : Int := if ts ≤ maxUnixTs then ts * 1000000000 else maxDateTimeNs
+
+/-- `parse_unix_timestamp`: the `i64` value, `i64::MAX` for a decimal number too large for `i64`; refused
+    when negative; the instant (nanoseconds since the epoch), clamped to the range of `OffsetDateTime` -/
 def parseUnixTimestamp (s : Bytes) : Option Int :=
-  match parseI64 s with
-  | some x => if 0 ≤ x ∧ x ≤ maxUnixTs then some x else none
+  let ts : Option Int := match parseI64 s with
+    | some x => some x
+    | none => if isDecimal s then some i64Max else none
+  match ts with
   | none => none
+  | some x => if x < 0 then none else some (instantOfUnixTs x)
 
 structure Presigned where
   accessKey : Bytes
-  expires : Int
+  /-- `expires_time`, nanoseconds since the epoch -/
+  expiresNs : Int
   signature : Bytes
 deriving DecidableEq, Repr
 
@@ -321,7 +339,7 @@ def checkPresigned (hmac : Bytes → Bytes → Bytes) (b64 : Bytes → Bytes) (l
   match parsePresigned qs with
   | none => .reject .InvalidRequest
   | some p =>
-    if nowNs > p.expires * 1000000000 then .reject .AccessDenied
+    if nowNs > p.expiresNs then .reject .AccessDenied
     else match lookup p.accessKey with
       | none => .reject .NotSignedUp
       | some secret =>
